@@ -66,6 +66,10 @@ func c09FreeRunning(root, tier string, jobs []c09Job, addV func(kind, name, msg,
 		runs++
 		if ee, ok := runErr.(*exec.ExitError); strings.Contains(se.String(), "DATA RACE") || (ok && ee.ExitCode() == 66) {
 			addV("data-race", "free-running generations, GOMAXPROCS="+procs, firstRace(se.String()), "")
+		} else if runErr != nil && (strings.Contains(se.String(), "pointlander/peg/tree.") || strings.Contains(se.String(), "pointlander/peg/set.")) && (strings.Contains(se.String(), "panic:") || strings.Contains(se.String(), "fatal error:")) {
+			// the generator itself crashed while generations ran one after another or concurrently
+			addV("free-running-crash", "free-running generations, GOMAXPROCS="+procs, "the generator crashed: "+clipS(crashSummary(se.String()), 900), "")
+			continue
 		} else if runErr != nil {
 			return nil, fmt.Errorf("free-running harness failed: %v\n%s", runErr, clipS(se.String(), 1000))
 		}
@@ -107,6 +111,9 @@ func c09FreeRunning(root, tier string, jobs []c09Job, addV func(kind, name, msg,
 		if j.Switch {
 			args = append(args, "-switch")
 		}
+		if j.Strict {
+			args = append(args, "-strict")
+		}
 		args = append(args, "-output", "-", "g.peg")
 		var first *cliRun
 		for _, procs := range []string{"1", "2", "16"} {
@@ -117,7 +124,8 @@ func c09FreeRunning(root, tier string, jobs []c09Job, addV func(kind, name, msg,
 				var so, se bytes.Buffer
 				cmd.Stdout, cmd.Stderr = &so, &se
 				err := cmd.Run()
-				r := cliRun{Stdout: so.String(), Stderr: se.String()}
+				// log.Fatal (used under -strict) prefixes the wall-clock time
+				r := cliRun{Stdout: so.String(), Stderr: logTSRe.ReplaceAllString(se.String(), "")}
 				if err != nil {
 					r.Exit = 1
 				}
@@ -132,4 +140,18 @@ func c09FreeRunning(root, tier string, jobs []c09Job, addV func(kind, name, msg,
 	}
 	note["process_repeats"] = repeats
 	return note, nil
+}
+
+// crashSummary: the panic line and the frames inside the repository's packages.
+func crashSummary(trace string) string {
+	var keep []string
+	for _, l := range strings.Split(trace, "\n") {
+		if strings.HasPrefix(l, "panic:") || strings.HasPrefix(l, "fatal error:") || strings.Contains(l, "pointlander/peg/tree.") || strings.Contains(l, "pointlander/peg/set.") {
+			keep = append(keep, strings.TrimSpace(l))
+		}
+		if len(keep) >= 8 {
+			break
+		}
+	}
+	return strings.Join(keep, " | ")
 }
